@@ -4,6 +4,10 @@ package verifharness
 import (
 	"bytes"
 	"fmt"
+	"io"
+	"net/http"
+	"net/http/httptest"
+	"net/url"
 	"os"
 	"path/filepath"
 	"strings"
@@ -12,6 +16,7 @@ import (
 	"time"
 
 	"github.com/corazawaf/coraza/v3"
+	txhttp "github.com/corazawaf/coraza/v3/http"
 	"github.com/corazawaf/coraza/v3/internal/corazawaf"
 	"github.com/corazawaf/coraza/v3/internal/memoize"
 	"github.com/corazawaf/coraza/v3/types/variables"
@@ -31,6 +36,9 @@ type C07Case struct {
 	// Refused: rules the compiler refuses while SecIgnoreRuleCompilationErrors is On, each followed by a directive
 	// that names the refused rule's id again
 	Refused bool `json:"refused,omitempty"`
+	// Middleware: after the scripts the same request is also served through the library's net/http middleware
+	// (a handler that answers with the case's response), twice
+	Middleware bool `json:"middleware,omitempty"`
 }
 
 var c07Once sync.Once
@@ -510,6 +518,13 @@ func genC07(t *rapid.T) *C07Case {
 		}
 		c.Refused = true
 	}
+	c.Middleware = rapid.IntRange(0, 3).Draw(t, "middleware") == 0
+	if c.Middleware && rapid.Bool().Draw(t, "mwrule") {
+		// a rule that always matches, with every kind of disruptive outcome and status the middleware has to turn into a response
+		lines = append(lines, fmt.Sprintf("SecRule REQUEST_URI \"@rx .\" \"id:9800,phase:%d,%s,status:%s\"", rapid.IntRange(1, 5).Draw(t, "mwphase"),
+			rapid.SampledFrom([]string{"deny", "deny", "drop", "redirect:http://r.example/", "redirect:%{tx.nosuch}", "redirect:\\x00\\r\\nX: y", "block", "allow", "pass"}).Draw(t, "mwdisr"),
+			rapid.SampledFrom([]string{"403", "99", "1000", "103", "0", "302", "204", "304", "999", "-1", "200"}).Draw(t, "mwstatus")))
+	}
 	c.Lines = lines
 	for _, l := range lines {
 		if strings.Contains(l, "@rbl") || strings.Contains(l, "@geoLookup") || strings.Contains(strings.ToLower(l), "secremoterules") {
@@ -698,7 +713,48 @@ func c07Run(c *C07Case) (accepted bool, evaluated int, fail *Failure) {
 		// a writer in some state) must not make the next one panic or wait for ever
 		_, _, _, f = execScript(w, &c.Req, c.Script)
 	}
+	if f == nil && c.Middleware {
+		f = c07Middleware(w, &c.Req)
+	}
 	return true, len(fired), f
+}
+
+// c07Middleware serves the request through txhttp.WrapHandler. The *http.Request is assembled by hand (the parsing
+// helpers of net/http refuse or panic on hostile text, which would be the harness' doing, not the library's).
+func c07Middleware(w coraza.WAF, r *Req) *Failure {
+	status := r.RespStatus
+	if status < 200 || status > 599 {
+		status = 200
+	}
+	h := txhttp.WrapHandler(w, http.HandlerFunc(func(rw http.ResponseWriter, hr *http.Request) {
+		_, _ = io.Copy(io.Discard, hr.Body)
+		for _, kv := range r.RespHeaders {
+			rw.Header().Add(kv.K, kv.V)
+		}
+		rw.WriteHeader(status)
+		if len(r.RespBody) > 0 {
+			half := len(r.RespBody) / 2
+			_, _ = rw.Write(r.RespBody[:half])
+			if fl, ok := rw.(http.Flusher); ok {
+				fl.Flush()
+			}
+			_, _ = rw.Write(r.RespBody[half:])
+		}
+	}))
+	for i := 0; i < 2; i++ {
+		if f := guard("http middleware", func() {
+			body := r.Body()
+			hr := &http.Request{Method: r.Method, URL: &url.URL{Path: r.Path, RawQuery: r.RawQuery()}, Proto: "HTTP/1.1", ProtoMajor: 1, ProtoMinor: 1,
+				Header: http.Header{}, Body: io.NopCloser(bytes.NewReader(body)), ContentLength: int64(len(body)), Host: "h.example", RemoteAddr: "10.0.0.1:40000", RequestURI: r.URI()}
+			for _, kv := range r.AllHeaders() {
+				hr.Header.Add(kv.K, kv.V)
+			}
+			h.ServeHTTP(httptest.NewRecorder(), hr)
+		}); f != nil {
+			return f
+		}
+	}
+	return nil
 }
 
 func checkC07(c *C07Case) Result {
@@ -753,6 +809,9 @@ func checkC07(c *C07Case) Result {
 		}
 		if c.Refused {
 			res.Labels = append(res.Labels, "refused-rules-then-references-to-their-ids")
+		}
+		if c.Middleware && c.Traffic && c.RawReq == nil {
+			res.Labels = append(res.Labels, "through-the-http-middleware")
 		}
 		res.NonTrivial = c.Traffic && len(c.Lines) > 0
 	} else {
